@@ -171,6 +171,61 @@ def truncated_native():
     return problems
 
 
+EXTREMES = {
+    2: [b'\x7f\xff', b'\x80\x00', b'\xff\xfe'],
+    4: [b'\x7f\xff\xff\xff', b'\x80\x00\x00\x00', b'\xff\xff\xff\xfe', b'\x00\x01\x00\x00'],
+    8: [b'\x7f' + 7 * b'\xff', b'\x80' + 7 * b'\x00', 7 * b'\xff' + b'\xfe', b'\x00\x00\x01' + 5 * b'\x00',
+        b'\x00\x00\x00\x01\x00\x00\x00\x00'],
+}
+
+
+def _extreme_one(job):
+    name, mode = job
+    P.clear()
+    P.update(MODE=mode, CLASS=name)
+    cls = registry.resolve(name)
+    accepted = [data for data, _ in registry.accepted_seeds(cls)]
+    if not accepted:
+        return []
+    data = min(accepted, key=lambda item: (len(item), item))
+    if not 2 <= len(data) <= 400:
+        return []
+    if mode == 'rt' and not hasattr(cls.parse_exact_size(data), 'compose'):
+        return []
+    found = {}
+    for width, patterns in sorted(EXTREMES.items()):
+        for offset in range(0, len(data) - width + 1):
+            for pattern in patterns:
+                variant = data[:offset] + pattern + data[offset + width:]
+                del api.NOTES[:]
+                try:
+                    if not _judge(cls, variant):
+                        key = ('false', '; '.join(api.NOTES)[:60])
+                        found.setdefault(key, '%s: bytes %d..%d = %s of %s: %s' % (
+                            name, offset, offset + width - 1, pattern.hex(), data.hex()[:80],
+                            '; '.join(api.NOTES)[:200] or 'the %s clauses fail' % mode))
+                except api.Escaped as exc:
+                    found.setdefault((exc.etype, exc.site_fn), '%s: %s escapes from %s for bytes %d..%d = %s of %s' % (
+                        name, exc.etype, exc.site_fn, offset, offset + width - 1, pattern.hex(), data.hex()[:80]))
+    return sorted(found.values())
+
+
+def extreme_fields():
+    """concrete: every 2-, 4- and 8-byte field position of the shortest accepted vector of every seeded class set to
+    the ends of its signed / unsigned range (timestamps, lengths, counts: magnitudes a one-byte window cannot
+    reach), through the judge of P['MODE']"""
+    import multiprocessing  # pylint: disable=import-outside-toplevel
+    mode = P['MODE']
+    jobs = [(registry.class_name(cls), mode) for cls, _ in registry.seeded_classes()]
+    with multiprocessing.get_context('fork').Pool(16) as pool:
+        rows = pool.map(_extreme_one, jobs, chunksize=4)
+    P['MODE'] = mode
+    problems = []
+    for row in rows:
+        problems.extend(row)
+    return problems[:40]
+
+
 def unconstrained(data: bytes) -> bool:
     """post: _"""
     if len(data) > P['L']:
@@ -271,6 +326,9 @@ def window_shards(mode, tier, seed_value, per_seed=2, timeout=15, tag='w'):  # p
                         bounds='all 65536 values of bytes %d..%d of an accepted %d-byte vector' % (
                             pos, pos + 1, len(data)),
                         group='%s2/%s' % (tag, short)))
+    out.append(Shard(MOD, 'extreme_fields', '%s-extremes' % tag, {'MODE': mode}, kind='concrete',
+                     bounds='every 2-, 4- and 8-byte field position of the shortest accepted vector of every seeded class '
+                            'set to 7f..ff, 80..00, ff..fe, 00..0100..00 (natively)'))
     if mode in ('c02', 'c03'):
         out.append(Shard(MOD, 'truncated_native', '%s-trunc' % tag, {'MODE': mode, 'TIER': tier}, kind='concrete',
                          bounds='every proper prefix of the shortest accepted vector(s) of every seeded class (natively)'))
